@@ -3,6 +3,8 @@ package main
 // Persistent SMT solver processes (z3-new 5.1 primary, cvc5 secondary).
 
 import (
+	"os"
+	"runtime"
 	"bufio"
 	"fmt"
 	"io"
@@ -222,7 +224,24 @@ func (s *Solver) script(ts []*Term, wantModel bool, vars []*Term, pname string) 
 	return sb.String()
 }
 
+var callerStats sync.Map
+
 func (s *Solver) CheckOn(first int, ts []*Term, wantModel bool) (Result, *Model) {
+	if debugCallers {
+		var pcs [6]uintptr
+		n := runtime.Callers(2, pcs[:])
+		fr := runtime.CallersFrames(pcs[:n])
+		key := ""
+		for i := 0; i < 4; i++ {
+			f, more := fr.Next()
+			key += fmt.Sprintf("%s:%d ", f.Function, f.Line)
+			if !more {
+				break
+			}
+		}
+		c, _ := callerStats.LoadOrStore(key, new(int64))
+		atomic.AddInt64(c.(*int64), 1)
+	}
 	// trivial cases
 	var live []*Term
 	for _, t := range ts {
@@ -563,4 +582,13 @@ func init() {
 			TEq(TUF("unhexbyte", SBV8, u), u.args[0]),
 		}
 	}
+}
+
+var debugCallers = os.Getenv("GOSYM_CALLERS") != ""
+
+func printCallerStats() {
+	callerStats.Range(func(k, v any) bool {
+		fmt.Printf("%8d %s\n", *v.(*int64), k)
+		return true
+	})
 }
